@@ -915,3 +915,34 @@ def apply_contract(self, path, c2, f, args, kwargs):
 
 
 VG.Config.apply_contract = apply_contract
+
+
+# ---------------------------------------------------------------------------
+# native side of a nested function under contract: replay.resolve compiles the nested def on its own (free variables
+# become globals of a copy of the module namespace); the contract parameters that are not in its signature are
+# installed there before the call
+# ---------------------------------------------------------------------------
+from . import replay as R  # noqa: E402
+
+_orig_resolve = R.resolve
+
+
+def resolve(name):
+    import types as _types
+
+    o = _orig_resolve(name)
+    if '<locals>' in name.split('#')[0] and isinstance(o, _types.FunctionType):
+        own = set(o.__code__.co_varnames[: o.__code__.co_argcount + o.__code__.co_kwonlyargcount])
+
+        def call(**kw):
+            for k, v in kw.items():
+                if k not in own:
+                    o.__globals__[k] = v
+            return o(**{k: v for k, v in kw.items() if k in own})
+
+        call.__name__ = o.__name__
+        return call
+    return o
+
+
+R.resolve = resolve
